@@ -138,7 +138,7 @@ func c04Buffers(c *Ctx, r *Report, prefix string) {
 				ok, why := false, ""
 				if freshAt(t.Pos()) {
 					ok, why = true, "fresh: on every path of this iteration the buffer was re-made before this write, so no token refers to it yet"
-				} else if sx, isSl := ast.Unparen(dst).(*ast.SliceExpr); isSl && what == "Read" && sx.High == nil && sx.Low != nil && fieldNamed(info, sx.Low, "end") && fieldNamed(info, sx.X, "buf") {
+				} else if sx, isSl := ast.Unparen(dst).(*ast.SliceExpr); isSl && what == "Read" && sx.High == nil && sx.Low != nil && fieldNamed(info, unalias(info, fi.Decl.Body, sx.Low), "end") && fieldNamed(info, sx.X, "buf") {
 					ok, why = true, "tail: writes only beyond s.end, the upper bound of every token"
 				}
 				r.Check(ok, rule, fi.Name, what+"("+exprStr(dst)+", ..)", c.Pos(t.Pos()), why,
